@@ -190,9 +190,22 @@ fn phase1(
             let n1 = board.make_move_new(m);
             let mut n2 = *dirty;
             board.make_move(m, &mut n2);
-            (n1, n2)
+            // other things the output board may hold beforehand: the source itself, the source with other castling
+            // rights (same placement and mover), the result of an earlier call
+            let mut n3 = board;
+            board.make_move(m, &mut n3);
+            let mut n4 = board;
+            #[allow(deprecated)]
+            {
+                n4.remove_castle_rights(Color::White, CastleRights::Both);
+                n4.remove_castle_rights(Color::Black, CastleRights::KingSide);
+            }
+            board.make_move(m, &mut n4);
+            let mut n5 = n1;
+            board.make_move(m, &mut n5);
+            (n1, n2, [n3, n4, n5])
         });
-        let (n1, n2) = match r {
+        let (n1, n2, others) = match r {
             Ok(x) => x,
             Err(_) => {
                 if has(cfg, "C02") {
@@ -213,6 +226,14 @@ fn phase1(
             }
             if board != before {
                 rep.violation("C02", "source_modified", json!({"fen": fen, "move": [f, t, p]}));
+            }
+            for (k, o) in others.iter().enumerate() {
+                if *o != n1 {
+                    let held = ["the source", "the source with other castling rights", "an earlier result"][k];
+                    rep.violation("C02", "result_depends_on_previous_content_of_output_board",
+                        json!({"fen": fen, "move": [f, t, p], "output_held": held,
+                               "observed": proj(o).describe(), "expected": proj(&n1).describe()}));
+                }
             }
         }
         // expected successor from the spec
@@ -302,6 +323,10 @@ fn phase1(
                     }
                 }
             }
+        }
+        if has(cfg, "C04") && n1.status() != n2.status() {
+            rep.violation("C04", "status_differs_between_entry_points", json!({"fen": fen, "move": [f, t, p],
+                "after_make_move_new": format!("{:?}", n1.status()), "after_make_move": format!("{:?}", n2.status())}));
         }
         if has(cfg, "C18") {
             // the result of the in-place entry point must pass (or refuse to pass) exactly like the other one
@@ -818,6 +843,64 @@ fn phase2(cfg: &Cfg, it: &Item, idx: u64, rep: &mut Report) {
         if let Ok(x) = Board::try_from(&pos_to_builder(sp)) {
             if x.get_hash() != b.get_hash() {
                 rep.violation("C08", "hash_differs_from_builder_construction", json!({"fen": fen}));
+            }
+        }
+    }
+
+    // ---------------- C08: Hash must be consistent with == also across DIFFERENT positions; builder edit paths ----------------
+    if has(cfg, "C08") {
+        let mut variants: Vec<Pos> = vec![];
+        if sp.ep >= 0 {
+            let mut v = *sp;
+            v.ep = -1;
+            variants.push(v);
+        }
+        if sp.cr != 0 {
+            let mut v = *sp;
+            v.cr = 0;
+            variants.push(v);
+        }
+        let mut v = *sp;
+        v.stm = if sp.stm == b'w' { b'b' } else { b'w' };
+        v.ep = -1;
+        variants.push(v);
+        for v in variants.iter() {
+            if let Ok(x) = Board::try_from(&pos_to_builder(v)) {
+                if x == *b && std_hash_bytes(&x) != std_hash_bytes(b) {
+                    rep.violation("C08", "boards_equal_under_eq_but_std_hash_differs", json!({"fen": fen, "other": v.describe()}));
+                }
+            }
+        }
+        // Board -> BoardBuilder -> edit one square through IndexMut -> Board: same hash as the edited position built afresh
+        let mut seed = cfg.seed ^ idx.wrapping_mul(0xA24BAED4963EE407);
+        let i = (rng_next(&mut seed) % 64) as usize;
+        if sp.sq[i] != b'K' && sp.sq[i] != b'k' {
+            let newman: u8 = if sp.sq[i] == b'.' { b'N' } else { b'.' };
+            let mut edited = *sp;
+            edited.sq[i] = newman;
+            edited.ep = -1;
+            let mut bb: BoardBuilder = b.into();
+            bb.en_passant(None);
+            bb[Square::new(i as u8)] = letter_piece(newman);
+            match (Board::try_from(&bb), Board::try_from(&pos_to_builder(&edited))) {
+                (Ok(x), Ok(y)) => {
+                    rep.count("builder_index_edits_compared", 1);
+                    if x.get_hash() != y.get_hash() || x != y {
+                        rep.violation("C08", "hash_after_builder_index_edit_differs_from_fresh", json!({"fen": fen, "edited": edited.describe(),
+                            "hash": [x.get_hash().to_string(), y.get_hash().to_string()]}));
+                    }
+                }
+                (Ok(_), Err(_)) | (Err(_), Ok(_)) => {
+                    rep.violation("C08", "builder_index_edit_acceptance_differs", json!({"fen": fen, "edited": edited.describe()}));
+                }
+                _ => {}
+            }
+        }
+    }
+    if has(cfg, "C09") {
+        if let Some(n) = b.null_move() {
+            if n.get_hash() == b.get_hash() {
+                rep.violation("C09", "null_move_keeps_hash", json!({"fen": fen}));
             }
         }
     }
